@@ -6,7 +6,10 @@ import (
 	"strings"
 	"time"
 
+	"github.com/rminnich/go9p"
+
 	"verif/core"
+	"verif/memconn"
 	"verif/script"
 	"verif/wire"
 )
@@ -54,6 +57,7 @@ func c08Cases(tier string, seed int64) []core.Case {
 			cb := cb
 			cases = append(cases, core.Case{ID: fmt.Sprintf("slow-callback/%s/maxpend=%d", cb, mp), Run: func(ctx *core.Ctx) core.Result { return c08SlowCallback(ctx.Seed, mp, cb) }})
 		}
+		cases = append(cases, core.Case{ID: fmt.Sprintf("client-tag-interface/maxpend=%d", mp), Run: func(ctx *core.Ctx) core.Result { return c08ClientTag(ctx.Seed, mp) }})
 		cases = append(cases, core.Case{ID: fmt.Sprintf("stalled-client/maxpend=%d", mp), Run: func(ctx *core.Ctx) core.Result { return c08StalledClient(ctx.Seed, mp) }})
 		cases = append(cases, core.Case{ID: fmt.Sprintf("slow-fiddestroy/maxpend=%d", mp), Run: func(ctx *core.Ctx) core.Result { return c08SlowDestroy(ctx.Seed, mp) }})
 	}
@@ -793,5 +797,114 @@ func c08StalledClient(seed int64, maxpend int) core.Result {
 	res.Sig(fmt.Sprintf("stalled-client|mp=%d", maxpend))
 	e.c.Hangup()
 	other.c.Hangup()
+	return res
+}
+
+// c08ClientTag: the shared-tag contract end to end — go9p's own client issues a group of requests under one tag
+// through its pipelined Tag interface while the first of them is held in the implementation; the server executes
+// them one at a time in arrival order, and the client hands each answer to the request it belongs to, in that order.
+func c08ClientTag(seed int64, maxpend int) core.Result {
+	var res core.Result
+	s := NewSess(Config{Dotu: true, Msize: 8192, Maxpend: maxpend})
+	cli, srv := memconn.Pipe("tagclient", "server")
+	s.Srv.NewConn(srv)
+	connID := s.Ops.NConn()
+	clnt, err := go9p.Connect(cli, 8192, true)
+	if err != nil {
+		res.Inconclusive = "c08: client connect: " + err.Error()
+		return res
+	}
+	defer clnt.Unmount()
+	root, err := clnt.Attach(nil, script.Users{}.Uid2User(0), "x")
+	if err != nil {
+		res.Inconclusive = "c08: client attach: " + err.Error()
+		return res
+	}
+	clnt.Root = root
+	f, err := clnt.FOpen("f", go9p.ORDWR)
+	if err != nil {
+		res.Inconclusive = "c08: client open: " + err.Error()
+		return res
+	}
+	for round := 0; round < 10 && len(res.Violations) == 0; round++ {
+		k := 2 + round%5
+		reqchan := make(chan *go9p.Req, 32)
+		tag := clnt.TagAlloc(reqchan)
+		seq0 := s.Log.Seq()
+		// all requests of the group carry the tag's number: their plans queue up under it; the first one is held
+		gate := make(chan struct{})
+		entered := make(chan struct{})
+		var tagNo uint16
+		var tok int64
+		first := script.NewPlan()
+		first.Gate, first.Entered = gate, entered
+		offs := make([]uint64, k)
+		for i := range offs {
+			offs[i] = uint64(1000*round + 100*(i+1))
+		}
+		// the tag number is only visible on the wire: learn it from the first request's op event
+		// (plans are keyed by connection and tag, and the tag's number is only visible on the wire: the first request
+		// picks up a one-shot catch-all plan)
+		s.Ops.SetDefaultPlan(connID, first)
+		if err := tag.Read(f.Fid, offs[0], 10); err != nil {
+			res.Inconclusive = "c08: tag.Read: " + err.Error()
+			return res
+		}
+		select {
+		case <-entered:
+		case <-time.After(W):
+			res.Inconclusive = "c08: first request of the group never reached the implementation"
+			close(gate)
+			return res
+		}
+		s.Ops.SetDefaultPlan(connID, nil)
+		for _, ev := range s.Log.Snapshot(seq0) {
+			if ev.Kind == "op" && ev.Conn == connID && ev.Op == "Read" {
+				tagNo, tok = ev.Tag, ev.Fid
+			}
+		}
+		for i := 1; i < k; i++ {
+			if err := tag.Read(f.Fid, offs[i], 10); err != nil {
+				res.Inconclusive = "c08: tag.Read: " + err.Error()
+				close(gate)
+				return res
+			}
+		}
+		// the followers are with the server but must not have started
+		time.Sleep(2 * time.Millisecond)
+		started := 0
+		for _, ev := range s.Log.Snapshot(seq0) {
+			if ev.Kind == "op" && ev.Conn == connID && ev.Op == "Read" {
+				started++
+			}
+		}
+		close(gate)
+		res.Evals++
+		det := map[string]interface{}{"group": k, "tag": tagNo, "maxpend": maxpend}
+		if started > 1 {
+			res.Violate("C08;client-tag;not-serial", fmt.Sprintf("%d requests of one tag group were executing at the same time", started), det)
+		}
+		for i := 0; i < k; i++ {
+			select {
+			case r := <-reqchan:
+				if r.Tc == nil || r.Rc == nil || r.Rc.Type != go9p.Rread {
+					res.Violate("C08;client-tag;bad-completion", fmt.Sprintf("completion %d of the group is not an answered read", i), det)
+					continue
+				}
+				if r.Tc.Offset != offs[i] {
+					res.Violate("C08;client-tag;completion-order", fmt.Sprintf("completion %d belongs to the request for offset %d, the request issued at that position asked for %d", i, r.Tc.Offset, offs[i]), det)
+				}
+				if want := script.Pattern(tagNo, tok, r.Tc.Offset, len(r.Rc.Data)); len(r.Rc.Data) != 10 || !bytes.Equal(want, r.Rc.Data) {
+					res.Violate("C08;client-tag;foreign-answer", fmt.Sprintf("the request for offset %d was completed with the answer to another request of its tag group", r.Tc.Offset), det)
+				}
+			case <-time.After(W):
+				res.Violate("C08;client-tag;completion-missing", fmt.Sprintf("only %d of %d requests of the tag group were completed", i, k), det)
+				i = k
+			}
+		}
+		clnt.TagFree(tag)
+		res.Sig(fmt.Sprintf("client-tag|k=%d|mp=%d", k, maxpend))
+	}
+	res.Sample(map[string]interface{}{"scenario": "go9p client Tag interface against the go9p server, first request of the group held", "maxpend": maxpend})
 	return res
 }
